@@ -203,6 +203,11 @@ pub fn run(prop: &str, model_module: &str, body: impl FnOnce(&mut Ctx)) {
         }
         std::fs::write(out.join(format!("cases_{k}.v")), s).unwrap();
     }
+    let mut tsv = String::new();
+    for (idx, term) in &ctx.cases {
+        writeln!(tsv, "{idx}\t{}", term.replace('\n', " ")).unwrap();
+    }
+    std::fs::write(out.join("cases.tsv"), tsv).unwrap();
     let mut j = String::new();
     write!(
         j,
